@@ -1,5 +1,6 @@
 import Bch.Drive.Common
 import Bch.Model.Bloom
+import Bch.Model.BloomObj
 import Bch.Model.BloomTx
 import Bch.Model.Merkle
 import Bch.Prim.Sha2
@@ -70,6 +71,22 @@ def run : Runner
     let implAns := match impl.splitOn " " with | [a, _] => if a == "-" then [] else a.splitOn "," | _ => []
     let nf := noFalseNeg (some m) ops implAns
     pure { model, prop := if nf != "ok" then nf else "spec" }
+  | "histobj", [_, b, n, t, f, ops], impl => do
+    let s0 : BloomObj.State ← if b == "nil" then some ⟨[], none⟩ else (parseMsg b n t f).map fun m => ⟨[m], some 0⟩
+    let parseObjOp (s : String) : Option BloomObj.Op :=
+      match s.splitOn ":" with
+      | ["R", k] => (nat? k).map .reloadObj
+      | ["g"] => some .getMsg
+      | _ => (parseOp s).map .base
+    let ops ← if ops == "-" then some [] else (ops.splitOn ";").mapM parseObjOp
+    let (fin, ans) := ops.foldl (fun (st : BloomObj.State × List String) op =>
+        let (s', a) := BloomObj.stepObj st.1 op
+        (s', a.getD "." :: st.2)) (s0, [])
+    let objTok (m : Bloom.Msg) : String := s!"{Bytes.tok m.bits}/{m.nHash}/{m.tweak.toNat}/{m.flags}"
+    let model := s!"{tokList id ans.reverse} {if fin.objs.isEmpty then "-" else "|".intercalate (fin.objs.map objTok)}"
+    -- the specification is the object-level model itself (what is inserted into an object stays in it; Reload
+    -- re-points and writes nothing; MsgFilterLoad hands out the loaded object)
+    pure { model, prop := "spec" }
   | "newfilter", [_, _, tw, _, fl], impl => do
     let prop := match impl.splitOn " " with
       | [len, nh, tw', fl'] =>
